@@ -43,7 +43,7 @@ def apply(d, patch):
 def ingest(prop, outdir, ns):
     for n in ns:
         src = os.path.join(outdir, str(n))
-        sid = "%s-%s" % (prop, n)
+        sid = "%s-%s%s" % (prop, os.environ.get("SEED_TAG", ""), n)
         if not os.path.exists(os.path.join(src, "patch.diff")):
             print(sid, "no patch.diff")
             continue
